@@ -19,6 +19,8 @@ package main
 
 import (
 	"bytes"
+	"crypto/sha256"
+	"encoding/hex"
 	"flag"
 	"fmt"
 	"go/ast"
@@ -183,8 +185,67 @@ func pkgOf(info *types.Info, e ast.Expr) string {
 	return ""
 }
 
+// normalised source of a declaration: printed from the AST (comments are not parsed), whitespace collapsed
+func normSrc(n ast.Node) string {
+	var b bytes.Buffer
+	printer.Fprint(&b, fset, n)
+	return strings.Join(strings.Fields(b.String()), " ")
+}
+
+type fingerprint struct{ File, Func, Hash string }
+
+var fingerprints []fingerprint
+
+// fingerprintOf hashes the function that owns a site together with the functions of the same
+// package it calls directly (the producers / consumers of the iterated value), so that an audit
+// verdict is pinned to the code it was given for.
+func fingerprintOf(pi *pkgInfo, decls map[types.Object]*ast.FuncDecl, root ast.Node) string {
+	h := sha256.New()
+	h.Write([]byte(normSrc(root)))
+	seen := map[string]string{}
+	ast.Inspect(root, func(n ast.Node) bool {
+		c, ok := n.(*ast.CallExpr)
+		if !ok {
+			return true
+		}
+		var id *ast.Ident
+		switch f := c.Fun.(type) {
+		case *ast.Ident:
+			id = f
+		case *ast.SelectorExpr:
+			id = f.Sel
+		}
+		if id == nil {
+			return true
+		}
+		if fd, ok := decls[pi.info.Uses[id]]; ok && fd != root {
+			seen[recvName(fd)] = normSrc(fd)
+		}
+		return true
+	})
+	var names []string
+	for k := range seen {
+		names = append(names, k)
+	}
+	sort.Strings(names)
+	for _, k := range names {
+		h.Write([]byte("\n" + k + ":" + seen[k]))
+	}
+	return hex.EncodeToString(h.Sum(nil))[:16]
+}
+
 func scan(pi *pkgInfo, relDir string) []site {
 	var out []site
+	decls := map[types.Object]*ast.FuncDecl{}
+	for _, f := range pi.files {
+		for _, d := range f.Decls {
+			if fd, ok := d.(*ast.FuncDecl); ok && fd.Body != nil {
+				if o := pi.info.Defs[fd.Name]; o != nil {
+					decls[o] = fd
+				}
+			}
+		}
+	}
 	for i, f := range pi.files {
 		name := pi.names[i]
 		if excludedFile(name) {
@@ -251,10 +312,18 @@ func scan(pi *pkgInfo, relDir string) []site {
 			switch x := d.(type) {
 			case *ast.FuncDecl:
 				if x.Body != nil {
+					n0 := len(out)
 					visit(recvName(x), x)
+					if len(out) > n0 {
+						fingerprints = append(fingerprints, fingerprint{rel, recvName(x), fingerprintOf(pi, decls, x)})
+					}
 				}
 			case *ast.GenDecl:
+				n0 := len(out)
 				visit("<pkg>", x)
+				if len(out) > n0 {
+					fingerprints = append(fingerprints, fingerprint{rel, "<pkg>", fingerprintOf(pi, decls, x)})
+				}
 			}
 		}
 	}
@@ -431,6 +500,22 @@ func main() {
 			sep = ""
 		}
 		fmt.Fprintf(&b, "  mkSite %s %s %s %s %d%s\n", coqStr(s.File), coqStr(s.Func), kinds[s.Kind], coqStr(s.Expr), s.Ord, sep)
+	}
+	b.WriteString("]%string.\n\n")
+	sort.SliceStable(fingerprints, func(i, j int) bool {
+		if fingerprints[i].File != fingerprints[j].File {
+			return fingerprints[i].File < fingerprints[j].File
+		}
+		return fingerprints[i].Func < fingerprints[j].Func
+	})
+	b.WriteString("(* fingerprint (sha256 prefix of the comment- and whitespace-normalised source) of every function that owns a site,\n   together with the same-package functions it calls directly *)\n")
+	b.WriteString("Definition func_fingerprints : list (string * string * string) := [\n")
+	for i, f := range fingerprints {
+		sep := ";"
+		if i == len(fingerprints)-1 {
+			sep = ""
+		}
+		fmt.Fprintf(&b, "  (%s, %s, %s)%s\n", coqStr(f.File), coqStr(f.Func), coqStr(f.Hash), sep)
 	}
 	b.WriteString("]%string.\n\n")
 	lst := func(name string, l []string) {
